@@ -82,6 +82,23 @@ def prefix_ops(g, target):
         yield g.ai_edit(kinds=["insert", "append", "replace", "modify"])   # (amend after a deletion: finding amend_shift)
         yield g.git("add", "-A")
         yield g.git("commit", "-q", "--amend", "--no-edit", target=True)
+    elif target == "rebase" and g.cfg.get("fault_family") == "git":
+        # one commit that adds an agent block and hand-written lines right next to it (both orders); upstream inserts or
+        # deletes lines above: any note that reaches the rewritten commit with the OLD line numbers covers the person's lines
+        base = g.branch()
+        yield g.git("checkout", "-q", "-b", "feat")
+        first_ai = rng.random() < 0.5
+        for k in range(rng.choice([2, 3])):
+            if (k % 2 == 0) == first_ai:
+                yield g.ai_edit(path=path, kinds=["append"], max_block=3)
+            else:
+                yield g.human_edit(path=path, kinds=["append"], pre_ckpt=True, max_block=3)
+        yield from g.commit_all()
+        yield g.git("checkout", "-q", base)
+        yield g.human_edit(path=path, kinds=["insert", "delete"], pos="top", pre_ckpt=True, max_block=2)
+        yield from g.commit_all()
+        yield g.git("checkout", "-q", "feat")
+        yield g.git("rebase", base, target=True)
     elif target in ("rebase", "rebase_continue"):
         base = g.branch()
         yield from hist.fam_feature_branch(g, rng.randint(1, 2), path, rewritten=True)
